@@ -448,11 +448,13 @@ fn interior_point(v: &[P]) -> P {
 fn gp(p: P) -> g::GdsPoint {
     g::GdsPoint::new(p.0 as i32, p.1 as i32)
 }
-fn strans(o: &Orient, none_angle: bool, mag1: bool) -> Option<g::GdsStrans> {
+fn strans(o: &Orient, none_angle: bool, mag1: bool, salt: i64) -> Option<g::GdsStrans> {
+    // the same orientation spelled with whole turns more or less (-90 for 270, 450 for 90), by content
+    let turns = [0.0, 0.0, 0.0, -1.0, 0.0, 1.0, 0.0, -2.0, 0.0][salt.rem_euclid(9) as usize];
     if !o.refl && o.rot == 0 && none_angle && !mag1 {
         return None;
     }
-    Some(g::GdsStrans { reflected: o.refl, angle: if o.rot == 0 && none_angle { None } else { Some(o.angle()) }, mag: if mag1 { Some(1.0) } else { None }, ..Default::default() })
+    Some(g::GdsStrans { reflected: o.refl, angle: if o.rot == 0 && none_angle { None } else { Some(o.angle() + 360.0 * turns) }, mag: if mag1 { Some(1.0) } else { None }, ..Default::default() })
 }
 pub fn to_gds(m: &HLib) -> g::GdsLibrary {
     let mut lib = g::GdsLibrary::new("hlib");
@@ -473,11 +475,11 @@ pub fn to_gds(m: &HLib) -> g::GdsLibrary {
                 st.elems.push(g::GdsElement::GdsTextElem(g::GdsTextElem { string: l.string.clone(), layer: l.layer, texttype: l.texttype, xy: gp(l.loc), ..Default::default() }));
             } else {
                 match &s.refs[k - s.shapes.len() - s.labels.len()] {
-                    HRef::S { target, loc, o, none_angle, mag1 } => st.elems.push(g::GdsElement::GdsStructRef(g::GdsStructRef { name: m.structs[*target].name.clone(), xy: gp(*loc), strans: strans(o, *none_angle, *mag1), ..Default::default() })),
+                    HRef::S { target, loc, o, none_angle, mag1 } => st.elems.push(g::GdsElement::GdsStructRef(g::GdsStructRef { name: m.structs[*target].name.clone(), xy: gp(*loc), strans: strans(o, *none_angle, *mag1, loc.0 + 3 * loc.1), ..Default::default() })),
                     HRef::A { target, p0, colstep, rowstep, cols, rows, o, none_angle } => {
                         let p1 = (p0.0 + *cols as i64 * colstep.0, p0.1 + *cols as i64 * colstep.1);
                         let p2 = (p0.0 + *rows as i64 * rowstep.0, p0.1 + *rows as i64 * rowstep.1);
-                        st.elems.push(g::GdsElement::GdsArrayRef(g::GdsArrayRef { name: m.structs[*target].name.clone(), xy: [gp(*p0), gp(p1), gp(p2)], cols: *cols, rows: *rows, strans: strans(o, *none_angle, false), ..Default::default() }))
+                        st.elems.push(g::GdsElement::GdsArrayRef(g::GdsArrayRef { name: m.structs[*target].name.clone(), xy: [gp(*p0), gp(p1), gp(p2)], cols: *cols, rows: *rows, strans: strans(o, *none_angle, false, p0.0 + 3 * p0.1), ..Default::default() }))
                     }
                 }
             }
@@ -731,7 +733,7 @@ fn malformed_case(src: &mut Src, ctx: &mut Ctx) -> Result<(), String> {
 }
 
 fn run(run: &mut Run) {
-    run.rule("GDSII libraries with acyclic hierarchies of 1-5 structs in shuffled listing order: boundaries (rectangles cw/ccw from any corner, histogram/45-degree/star polygons), boxes, Manhattan and a few non-Manhattan paths, SREFs in all eight orientations (angle None/Some, mag None/Some(1.0)), AREFs with literal lattices (axis-parallel, rotated, skewed; cols x rows up to 300x300), labels on vertices / edges / inside / outside shapes, same and other layer, mixed case; supported, neighbouring and unsupported units. Oracle: reference flattening under GDSII semantics + exact point-in-shape. Malformed class (dangling, cyclic, self reference, zero rows/cols, empty boundary) must be an error. Non-trivial = import succeeded, library has a non-identity reference or an array, and a label; distinct by hash of the model.");
+    run.rule("GDSII libraries with acyclic hierarchies of 1-5 structs in shuffled listing order: boundaries (rectangles cw/ccw from any corner, histogram/45-degree/star polygons), boxes, Manhattan and a few non-Manhattan paths, SREFs in all eight orientations (angle None/Some, now and then spelled with whole turns more or less; mag None/Some(1.0)), AREFs with literal lattices (axis-parallel, rotated, skewed; cols x rows up to 300x300), labels on vertices / edges / inside / outside shapes, same and other layer, mixed case; supported, neighbouring and unsupported units. Oracle: reference flattening under GDSII semantics + exact point-in-shape. Malformed class (dangling, cyclic, self reference, zero rows/cols, empty boundary) must be an error. Non-trivial = import succeeded, library has a non-identity reference or an array, and a label; distinct by hash of the model.");
     run.assume("MAG other than 1, absolute flags, nodes, duplicate struct names, two different labels on one shape, labels in a path's cap/corner zones are not generated");
     run.assume("an import error on a well-formed library is accepted by the statement and counted as refused");
     run.min_nontrivial = 200;
